@@ -134,7 +134,7 @@ Proof. intros. apply Z.leb_gt. lia. Qed.
 
 Lemma step_src_go fuel g i t st q ns :
   nth_error g i = Some (Src q) -> nth_error (gnodes st) i = Some ns -> ntime ns < t ->
-  step (S fuel) g i t st = (put i (src_pop (set_time t ns)) st, None).
+  step (S fuel) g i t st = (put i (src_pop (sd q) (set_time t ns)) st, None).
 Proof.
   intros Hg Hs Ht. cbn [step]. rewrite Hg, Hs, src_guard_spec, guard_false; auto.
 Qed.
@@ -358,7 +358,7 @@ Lemma trans_post_time f t pr n : ntime (fst (fst (trans_post f t pr n))) = t.
 Proof. unfold trans_post. destruct (is_none_rdd pr); [reflexivity|]. destruct (apply_tfun f t pr) as [[r lg]|e]; reflexivity. Qed.
 Lemma union_post_time t r1 r2 n : ntime (fst (union_post t r1 r2 n)) = t.
 Proof. unfold union_post. destruct (union _); reflexivity. Qed.
-Lemma src_pop_time n : ntime (src_pop n) = ntime n.
+Lemma src_pop_time d n : ntime (src_pop d n) = ntime n.
 Proof. unfold src_pop. destruct (nqueue n); reflexivity. Qed.
 
 Lemma step_times_le fuel : forall g i t st, times_le t st -> times_le t (fst (step fuel g i t st)).
@@ -485,11 +485,11 @@ Proof.
       * rewrite Hlen. unfold st1, add_log; cbn [gnodes]. apply put_length.
 Qed.
 
-(* the RDD the queue source yields in interval i+1: the (i+1)-th queued batch, EmptyRDD once exhausted *)
-Definition src_rdd (q : list (list val)) (i : nat) : rdd :=
-  match nth_error q i with Some b => RData b | None => REmpty end.
-Definition src_state (q : list (list val)) (n : nat) (T : Z) : nstate :=
-  mkN T (match n with O => RNone | S m => src_rdd q m end) (skipn n q) [] win_counter_init [].
+(* the RDD the queue source yields in interval i+1: the (i+1)-th queue entry (an EmptyRDD for a None entry), the default
+   once the queue has run dry *)
+Definition src_rdd (q : source) (i : nat) : rdd := entry_rdd (nth i (sq q) (sd q)).
+Definition src_state (q : source) (n : nat) (T : Z) : nstate :=
+  mkN T (match n with O => RNone | S m => src_rdd q m end) (skipn n (sq q)) [] win_counter_init [].
 
 Lemma skipn_step {A} n (q : list A) :
   match skipn n q with
@@ -504,15 +504,17 @@ Proof.
   - exact (IH q).
 Qed.
 
-Lemma src_pop_state q n T t : src_pop (set_time t (src_state q n T)) = src_state q (S n) t.
+Lemma src_pop_state q n T t : src_pop (sd q) (set_time t (src_state q n T)) = src_state q (S n) t.
 Proof.
   unfold src_state, set_time, src_pop; cbn [nqueue ntime nrdd nbuf nctr nkv].
-  pose proof (skipn_step n q) as H. unfold src_rdd.
-  destruct (skipn n q) as [|b r]; destruct H as [H1 H2]; rewrite H1, H2; reflexivity.
+  pose proof (skipn_step n (sq q)) as H. unfold src_rdd.
+  destruct (skipn n (sq q)) as [|b r]; destruct H as [H1 H2]; rewrite H2.
+  - apply nth_error_None in H1. rewrite (nth_overflow _ _ H1). reflexivity.
+  - rewrite (nth_error_nth _ _ _ H1). reflexivity.
 Qed.
 
 Lemma src_rdd_not_none q i : is_none_rdd (src_rdd q i) = false.
-Proof. unfold src_rdd. destruct (nth_error q i); reflexivity. Qed.
+Proof. unfold src_rdd. destruct (nth i (sq q) (sd q)); reflexivity. Qed.
 
 Lemma consumers_from_length p j0 k : length (consumers_from p j0 k) = k.
 Proof. unfold consumers_from. now rewrite map_length, seq_length. Qed.
@@ -538,7 +540,7 @@ Fixpoint cons_log (R : nat -> rdd) (k : nat) (n : nat) (ts : list Z) : list loge
    S1 n T: the state of stream 1 after n intervals, the last at time T.  The hypothesis S1_step is what the
    instances (Window, Stateful) establish: one step of stream 1 once the source has produced interval n+1. *)
 Section TwoNode.
-Variables (q : list (list val)) (nd1 : node) (S1 : nat -> Z -> nstate) (R1 : nat -> rdd).
+Variables (q : source) (nd1 : node) (S1 : nat -> Z -> nstate) (R1 : nat -> rdd).
 Hypothesis S1_time : forall n T, ntime (S1 n T) = T.
 Hypothesis S1_rdd : forall n T, nrdd (S1 n T) = R1 n.
 Hypothesis S1_init : init_node nd1 = S1 0%nat 0.
